@@ -16,7 +16,7 @@ import numpy as np
 from rv import gen, oracle
 
 PLAN = {
-    "quick": {"cases": 6000, "hashseeds": 3, "shards": 5, "timeout": 420, "min_nontrivial": 2000},
+    "quick": {"cases": 12000, "hashseeds": 3, "shards": 5, "timeout": 600, "min_nontrivial": 4000},
     # C03_THOROUGH_CASES: smaller thorough run for smoke-testing the tier on a loaded machine
     "thorough": {"cases": int(os.environ.get("C03_THOROUGH_CASES", "40000")), "hashseeds": 10, "shards": 4,
                  "timeout": 3000, "min_nontrivial": int(os.environ.get("C03_THOROUGH_MIN_NT", "15000"))},
@@ -32,11 +32,12 @@ RULE = ("70% random discrete BNs (1-7 nodes quick / 1-8 thorough; templates ER, 
         "multi-variable queries DiscreteFactor.maximize of the posterior.  30% Markov networks (2-6 variables, "
         "cards 1-4, pairwise + unary + triangle factors, near-tie tables, not necessarily connected; 40% of them "
         "carry equal factors: exact copies, copies with the other variable order, the same factor object listed "
-        "twice, factors that coincide only on the evidence slice) x VE.map_query under the same order options.  non-trivial: >=2 variables, >=1 edge (BN) / >=2 factors (MN), and evidence or a non-query "
+        "twice, factors that coincide only on the evidence slice; ~15% of the others get one virtual-evidence "
+        "vector) x VE.map_query under the same order options.  non-trivial: >=2 variables, >=1 edge (BN) / >=2 factors (MN), and evidence or a non-query "
         "variable present; distinct by digest of the whole spec")
 ASSUMPTIONS = ["brute-force joint (<= 4096 cells) is the reference", "float64; maximiser tolerance 1e-9 relative",
                "every call uses a fresh engine (engine histories are C16)",
-               "virtual evidence on Markov networks is not exercised (the engine only defines it for BNs)",
+               "virtual evidence on a Markov network means: the posterior is additionally weighted by the likelihood vector",
                "BP is exercised on BNs with connected moral graph only (disconnected models are a documented refusal, C02)",
                "returned values are matched to state names by ==, so numpy integers count as the int state name"]
 REACH = [
@@ -61,12 +62,13 @@ MANIFEST = {
             "requested variables, uses the model's state names and attains the maximum of the brute-force posterior "
             "(1e-9 relative, ties free), in every hash-seed cell.",
     "note": "trusted: brute-force joint over <= 4096 cells, numpy arithmetic of the oracle. Not covered: models > 8 "
-            "variables, virtual evidence on Markov networks, torch backend, stochastic predict, ApproxInference.",
+            "variables, torch backend, stochastic predict, ApproxInference.",
     "technique": "reference-model monitor at the API boundary (map_query / predict returns) over seeded hostile inputs, "
                  "hash-seed fan-out, sys.monitoring reach counters",
 }
 
 ORDERS = ["MinFill", "MinNeighbors", "MinWeight", "WeightedMinFill", None, "perm"]
+MN_VIRTUAL = True        # exercise virtual evidence on Markov networks too (see ASSUMPTIONS)
 RTOL = 1e-9
 
 
@@ -375,7 +377,18 @@ def gen_case(seed, idx, tier):
     elim = [v for v in nodes if v not in query and v not in ev]
     perm = elim[:]
     rng.shuffle(perm)
-    return {"model": "mn", "mn": mn, "query": query, "evidence": ev, "perm": perm,
+    # virtual evidence on a Markov network (the quantifier names "all evidence including virtual evidence" for
+    # both model classes); kept apart from the equal-factor cases so that each finding has its own cases
+    virt = []
+    cand = [v for v in nodes if v not in ev and mn["card"][v] > 1]
+    if MN_VIRTUAL and cand and rng.random() < 0.2 and not reduced_groups(mn, list(ev), ev):
+        v = rng.choice(cand)
+        vec = [rng.choice([0.02, 0.1, 0.3, 0.6, 0.9, 1.0]) for _ in range(mn["card"][v])]
+        sl = tuple(ev.get(x, slice(None)) for x in nodes)
+        W = np.moveaxis(np.asarray(J[sl]), [x for x in nodes if x not in ev].index(v), -1) * np.array(vec)
+        if W.sum() > 1e-12:
+            virt = [{"var": v, "vec": vec, "form": rng.choice(["cpd", "factor"])}]
+    return {"model": "mn", "mn": mn, "query": query, "evidence": ev, "virtual": virt, "perm": perm,
             "build_seed": rng.randrange(10 ** 6)}
 
 
@@ -701,7 +714,7 @@ def build_mn(mn, rng):
     return m
 
 
-def mn_call(ctx, mn, spec, order):
+def mn_call(ctx, mn, spec, order, virt=()):
     import random
     from pgmpy.inference import VariableElimination
     states = mn["states"]
@@ -710,8 +723,9 @@ def mn_call(ctx, mn, spec, order):
     eo = list(spec["perm"]) if order == "perm" else order
 
     def go():
+        kw = {"virtual_evidence": make_virtual(states, virt)} if virt else {}
         return VariableElimination(model).map_query(variables=list(spec["query"]), evidence=dict(ev) or None,
-                                                    elimination_order=eo, show_progress=False)
+                                                    elimination_order=eo, show_progress=False, **kw)
     return ctx.call(go)
 
 
@@ -720,23 +734,33 @@ def run_mn(spec, ctx):
     nodes, J = oracle.mn_joint(mn)
     states = mn["states"]
     query, ev = spec["query"], spec["evidence"]
-    _, post = oracle.posterior(nodes, J, query, ev)
+    virt = spec.get("virtual") or []
+    likes = {d["var"]: np.array(d["vec"]) for d in virt}
+    _, post = oracle.posterior(nodes, J, query, ev, likes)
     ev_order = list(ev)
     groups = reduced_groups(mn, ev_order, ev)
     ctx.nontrivial = len(nodes) >= 2 and len(mn["factors"]) >= 2 and (len(ev) > 0 or len(query) < len(nodes))
     for f in ("mn", "evidence" if ev else None, f"kind:{mn['kind']}", "mn-equal-factors" if groups else None,
+              "mn-virtual" if virt else None,
               "unique-max" if _unique_max(post) else "tied-max"):
         if f:
             ctx.feature(f)
-    detail = dict(q=query, ev={v: states[v][s] for v, s in ev.items()})
+    detail = dict(q=query, ev={v: states[v][s] for v, s in ev.items()}, virt=virt)
     neutral = None
+    post_plain = oracle.posterior(nodes, J, query, ev)[1] if virt else None
     for order in ORDERS:
         label = f"VE(MN).map_query(order={order})"
-        bad = outcome(ctx, mn_call(ctx, mn, spec, order), query, states, post)
+        bad = outcome(ctx, mn_call(ctx, mn, spec, order, virt), query, states, post)
         if bad is None:
             ctx.ok()
             continue
         key = bad[0]
+        # structural classifier: Markov network + virtual evidence, the answer is a MAP of the posterior that
+        # ignores the virtual evidence, and the same call without virtual evidence is answered correctly
+        if virt and not bad[0].startswith("c03:exception"):
+            if (outcome(ctx, mn_call(ctx, mn, spec, order, virt), query, states, post_plain) is None
+                    and outcome(ctx, mn_call(ctx, mn, spec, order), query, states, post_plain) is None):
+                key = "c03:mn-virtual-evidence-ignored"
         # structural classifier: two factors with the same remaining scope and identical tables once the
         # evidence is sliced in; confirmed by re-running on an equivalent model without such a pair
         if groups:
